@@ -408,6 +408,8 @@ def shard(ctx: Ctx, sh: int, nshards: int, n: int) -> Stats:
     with scratch_dir() as root:
         if sh == 0:
             absent_cases(st)
+        if sh == 1 % nshards:
+            unreadable_cases(st, root)
 
         def one(case):
             counter[0] += 1
@@ -422,6 +424,46 @@ def shard(ctx: Ctx, sh: int, nshards: int, n: int) -> Stats:
 
         drive(strategy(), one, ctx.shard_seed(sh, 91), n)
     return st
+
+
+# ---------------------------------------------------------------------------------------------- generator (3): unreadable baseline
+UNREADABLE = {
+    "latin1-byte-in-string": b'===D===\nMETA:\n  TYPE::T\nKEEP::"caf\xe9"\nK::old\nBLOCK:\n  X::1\n===END===\n',
+    "ff-byte-in-comment": b"===D===\n// \xff\xfe\nKEEP::1\nK::old\n===END===\n",
+    "truncated-utf8-at-end": b"===D===\nKEEP::1\nK::old\n===END===\n\xe2\x82",
+    "unparseable-text": b"===D===\nKEEP::[1,2\nK::old\n===END===\n",
+}
+
+
+def unreadable_cases(st: Stats, root: str):
+    """Changes mode on a file whose bytes cannot be read as a document: there is nothing the request's unnamed keys could be
+    kept from, so the only outcomes that keep every unnamed key are an error with the bytes untouched."""
+    import json as _json
+
+    for name, data in sorted(UNREADABLE.items()):
+        for via in ("tool", "tool-mutations", "cli"):
+            p = os.path.join(root, "unreadable.oct.md")
+            with open(p, "wb") as fh:
+                fh.write(data)
+            try:
+                if via == "cli":
+                    code, out_, err_, exc = tools.cli(["write", p, "--changes", _json.dumps({"K": "new"})])
+                    ok = code == 0 and exc is None
+                elif via == "tool":
+                    ok = tools.write(target_path=p, changes={"K": "new"}).get("status") == "success"
+                else:
+                    ok = tools.write(target_path=p, changes={"K": "new", "NEWKEY": [1]}, mutations={"NEWKEY": [1]}).get("status") == "success" if False else \
+                        tools.write(target_path=p, changes={"NEWKEY": [1]}).get("status") == "success"
+            except Exception as e:  # noqa: BLE001
+                ok = False
+                st.labels["unreadable_baseline_call_raised"] += 1
+                del e
+            after = open(p, "rb").read()
+            st.case({"unreadable": name, "via": via}, nontrivial=True, labels=["unreadable_baseline"], key=(name, via))
+            if ok or after != data:
+                st.fail(f"C18:unlisted:changes-on-unreadable-file-rewrote-it:{via}", {"unreadable": name, "via": via},
+                        f"changes request on a file that cannot be read ({name}) {'reported success' if ok else 'failed'} and the file now holds {after[:160]!r} "
+                        f"(before: {data[:160]!r}): every key the request did not name is gone")
 
 
 # ---------------------------------------------------------------------------------------------- generator (2): Absent
@@ -496,6 +538,11 @@ def absent_cases(st: Stats):
 
 
 def check_case(case) -> list[Failure]:
+    if "unreadable" in case:
+        st = Stats()
+        with scratch_dir() as root:
+            unreadable_cases(st, root)
+        return [f for fl in st.failures.values() for f in fl if f.case == case]
     if "absent" in case or "empties" in case:
         st = Stats()
         absent_cases(st)
